@@ -1,0 +1,163 @@
+//! Verification seam (compiled only with `--cfg metrics_verif`): the subset of the mio API this
+//! crate uses, forwarded to the simulated network of `metrics::__verif::net`.
+#![allow(missing_docs)]
+use std::io;
+use std::net::SocketAddr;
+use std::time::Duration;
+
+use metrics::__verif::net::backend;
+pub use mio::{Interest, Token};
+
+fn no_backend() -> io::Error {
+    io::Error::new(io::ErrorKind::Other, "no simulated network installed")
+}
+
+pub trait Source {
+    fn id(&self) -> u64;
+}
+
+#[derive(Debug)]
+pub struct Registry {
+    poll: u64,
+}
+
+impl Registry {
+    pub fn register<S: Source>(&self, source: &mut S, token: Token, interest: Interest) -> io::Result<()> {
+        backend().ok_or_else(no_backend)?.poll_register(
+            self.poll,
+            source.id(),
+            token.0,
+            interest.is_readable(),
+            interest.is_writable(),
+        )
+    }
+}
+
+#[derive(Debug)]
+pub struct Poll {
+    registry: Registry,
+}
+
+impl Poll {
+    pub fn new() -> io::Result<Poll> {
+        let id = backend().ok_or_else(no_backend)?.poll_create()?;
+        Ok(Poll { registry: Registry { poll: id } })
+    }
+    pub fn registry(&self) -> &Registry {
+        &self.registry
+    }
+    pub fn poll(&mut self, events: &mut Events, timeout: Option<Duration>) -> io::Result<()> {
+        events.list.clear();
+        let ready = backend().ok_or_else(no_backend)?.poll_wait(self.registry.poll, events.cap, timeout)?;
+        for r in ready {
+            events.list.push(Event { token: Token(r.token), readable: r.readable, writable: r.writable });
+        }
+        Ok(())
+    }
+}
+
+#[derive(Debug)]
+pub struct Event {
+    token: Token,
+    readable: bool,
+    writable: bool,
+}
+
+impl Event {
+    pub fn token(&self) -> Token {
+        self.token
+    }
+    pub fn is_readable(&self) -> bool {
+        self.readable
+    }
+    pub fn is_writable(&self) -> bool {
+        self.writable
+    }
+}
+
+#[derive(Debug)]
+pub struct Events {
+    cap: usize,
+    list: Vec<Event>,
+}
+
+impl Events {
+    pub fn with_capacity(cap: usize) -> Events {
+        Events { cap, list: Vec::new() }
+    }
+    pub fn iter(&self) -> std::slice::Iter<'_, Event> {
+        self.list.iter()
+    }
+}
+
+#[derive(Debug)]
+pub struct Waker(u64);
+
+impl Waker {
+    pub fn new(registry: &Registry, token: Token) -> io::Result<Waker> {
+        Ok(Waker(backend().ok_or_else(no_backend)?.waker_create(registry.poll, token.0)?))
+    }
+    pub fn wake(&self) -> io::Result<()> {
+        backend().ok_or_else(no_backend)?.wake(self.0)
+    }
+}
+
+pub mod net {
+    use super::{backend, no_backend, Source};
+    use std::io;
+    use std::net::SocketAddr;
+
+    #[derive(Debug)]
+    pub struct TcpListener(u64);
+
+    impl TcpListener {
+        pub fn bind(addr: SocketAddr) -> io::Result<TcpListener> {
+            Ok(TcpListener(backend().ok_or_else(no_backend)?.listen(addr)?))
+        }
+        pub fn accept(&self) -> io::Result<(TcpStream, SocketAddr)> {
+            let (id, peer) = backend().ok_or_else(no_backend)?.accept(self.0)?;
+            Ok((TcpStream(id), peer))
+        }
+    }
+
+    impl Source for TcpListener {
+        fn id(&self) -> u64 {
+            self.0
+        }
+    }
+
+    #[derive(Debug)]
+    pub struct TcpStream(u64);
+
+    impl Source for TcpStream {
+        fn id(&self) -> u64 {
+            self.0
+        }
+    }
+
+    impl io::Write for TcpStream {
+        fn write(&mut self, buf: &[u8]) -> io::Result<usize> {
+            backend().ok_or_else(no_backend)?.stream_write(self.0, buf)
+        }
+        fn flush(&mut self) -> io::Result<()> {
+            Ok(())
+        }
+    }
+
+    impl io::Read for TcpStream {
+        fn read(&mut self, buf: &mut [u8]) -> io::Result<usize> {
+            backend().ok_or_else(no_backend)?.stream_read(self.0, buf)
+        }
+    }
+
+    impl Drop for TcpStream {
+        fn drop(&mut self) {
+            if let Some(b) = backend() {
+                b.close(self.0);
+            }
+        }
+    }
+}
+
+#[allow(dead_code)]
+fn _unused(_: SocketAddr) {}
